@@ -304,7 +304,10 @@ def build_cases(thorough):
         cases.append(("archflags", arch_))
     cases.append(("io", "\n".join(base) + "\n", "plain"))
     extras = {"blank": "", "no-separator": "garbage", "unknown-key": "new_counter: 5", "two-separators": "a: b: c",
-              "spaces": "   "}
+              "spaces": "   ",
+              # extra lines that merely CONTAIN one of the six names: they are not that counter
+              "name-then-two-separators": "rchar: 1: 2", "prefixed-name": "total: write_bytes: 0", "comment-naming-a-counter": "# previous syscr: 1",
+              "dotted-name": "blkio.read_bytes: 7", "dashed-name": "net-wchar: 5"}
     for name, line in extras.items():
         for i in range(len(base) + 1):
             ls = base[:i] + [line] + base[i:]
